@@ -34,6 +34,27 @@ SCALARS = ["string", "int32", "int64", "uint32", "uint64", "sint32", "sint64", "
            "sfixed64", "bool", "double", "float", "bytes"]
 STEMS = ["lib", "library_service", "type", "any", "service", "books"]
 STEMS2 = ["shared", "resources", "common", "lib_types"]
+# proto sub-packages of the API (`%sub` of the template tree): acme.lib.v1.<sub>; the initial letters are pairwise
+# distinct so that two of them still have `acme.lib.v1` as the common root (Naming.build: os.path.commonprefix)
+SUBS = ["keepers", "admin", "internal_api", "x", "beta.deep"]
+
+
+def pkg_of(spec, fidx):
+    """proto package of target file `fidx` (0: the file that DECLARES THE SERVICES and the file-0 messages,
+    1: the second target file) — read off the spec, i.e. what the `package` statement of that .proto file says"""
+    sub = (spec.get("subs") or [None, None])[fidx]
+    return PKG + ("." + sub if sub else "")
+
+
+def svc_pkg(spec):
+    """the `<proto package>` of the statement: the package of the file declaring the service"""
+    return pkg_of(spec, 0)
+
+
+def root_pkg(spec):
+    """what the generator is told is the API: the common root of the packages of the files to generate"""
+    pk = {pkg_of(spec, 0)} | ({pkg_of(spec, 1)} if spec.get("stem2") else set())
+    return os.path.commonprefix(tuple(pk)).rstrip(".")
 
 
 
@@ -52,7 +73,7 @@ def ask(ctx, ops):
 # ------------------------------------------------------------------ generator
 
 
-def gen_fields(r, earlier, dep, allow_wkt=True):
+def gen_fields(r, earlier, dep, allow_wkt=True, genre=f".{PKG}.Genre"):
     """1..5 fields over scalars / enum / earlier messages / maps / oneofs / well-known types / dependency types"""
     names = list(FIELD_NAMES)
     r.shuffle(names)
@@ -67,7 +88,7 @@ def gen_fields(r, earlier, dep, allow_wkt=True):
         elif kind == "optional":
             out.append({"name": nm, "type": r.pick(["int32", "string", "bool", "int64", "double"]), "optional": True})
         elif kind == "enum":
-            out.append({"name": nm, "type": "enum", "ref": f".{PKG}.Genre", "repeated": r.maybe(0.2)})
+            out.append({"name": nm, "type": "enum", "ref": genre, "repeated": r.maybe(0.2)})
         elif kind == "message" and earlier:
             out.append({"name": nm, "type": "message", "ref": "." + r.pick(earlier), "repeated": r.maybe(0.3)})
         elif kind == "map":
@@ -97,6 +118,17 @@ def gen_spec(r: apigen.Rng, idx=0):
     dep = r.maybe(0.6)
     stem = r.pick(STEMS)
     stem2 = r.pick([s for s in STEMS2 if s != stem]) if r.maybe(0.45) else None
+    # package layout of the target files: all in acme.lib.v1 ("flat"), or the file declaring the services / the second
+    # file / both in a sub-package acme.lib.v1.<sub> (then there are always two target files)
+    layout = r.pick(["flat"] * 5 + ["svc-sub"] * 3 + ["types-sub", "both-sub"])
+    subs = [None, None]
+    if layout != "flat":
+        stem2 = stem2 or r.pick([s for s in STEMS2 if s != stem])
+        a = r.pick(SUBS)
+        b = r.pick([s for s in SUBS if s[0] != a[0]])
+        subs = {"svc-sub": [a, None], "types-sub": [None, a], "both-sub": [a, b]}[layout]
+    lay = {"subs": subs, "stem2": stem2}
+    genre = f".{pkg_of(lay, 1 if stem2 else 0)}.Genre"
     msgs = []
     fulls = {0: [], 1: []}
     pool = ["Book", "Shelf", "Req", "Reply", "Empty", "Item", "Query", "Status", "Operation", "Duration"]
@@ -106,13 +138,13 @@ def gen_spec(r: apigen.Rng, idx=0):
         name = pool[i]
         fidx = 1 if (stem2 and r.maybe(0.4)) else 0
         earlier = list(fulls[1]) if fidx == 1 else list(fulls[0]) + list(fulls[1])
-        m = {"name": name, "file": fidx, "fields": gen_fields(r, earlier, dep), "nested": []}
+        m = {"name": name, "file": fidx, "fields": gen_fields(r, earlier, dep, genre=genre), "nested": []}
         if r.maybe(0.25):
-            m["nested"].append({"name": "Inner", "fields": gen_fields(r, earlier, dep)})
+            m["nested"].append({"name": "Inner", "fields": gen_fields(r, earlier, dep, genre=genre)})
         msgs.append(m)
-        fulls[fidx].append(f"{PKG}.{name}")
+        fulls[fidx].append(f"{pkg_of(lay, fidx)}.{name}")
         if m["nested"]:
-            fulls[fidx].append(f"{PKG}.{name}.Inner")
+            fulls[fidx].append(f"{pkg_of(lay, fidx)}.{name}.Inner")
     def typeref(allow_empty):
         kinds = ["local"] * 6 + ["wkt"] * 2 + ["iam"] + (["dep"] * 2 if dep else []) + (["empty"] * 3 if allow_empty else ["empty"])
         k = r.pick(kinds)
@@ -144,6 +176,8 @@ def gen_spec(r: apigen.Rng, idx=0):
     if not any(m["output"]["full"] == "google.protobuf.Empty" for m in methods):
         methods[0]["output"] = {"kind": "wkt", "full": "google.protobuf.Empty"}
     spec = {"stem": stem, "stem2": stem2, "dep": dep, "messages": msgs, "methods": methods, "options": ""}
+    if layout != "flat":
+        spec["subs"] = subs
     if r.maybe(0.4):
         # a second service of the same API (its clients may share a channel with the first one's); some RPC names coincide
         m2 = []
@@ -184,9 +218,9 @@ def build_files(spec):
     targets = []
     f2 = None
     if spec.get("stem2"):
-        f2 = apigen.File(f"acme/lib/v1/{spec['stem2']}.proto", PKG).dep(*depnames)
+        f2 = apigen.File(f"{pkg_of(spec, 1).replace('.', '/')}/{spec['stem2']}.proto", pkg_of(spec, 1)).dep(*depnames)
         targets.append(f2)
-    f = apigen.File(f"acme/lib/v1/{spec['stem']}.proto", PKG).dep(*depnames)
+    f = apigen.File(f"{pkg_of(spec, 0).replace('.', '/')}/{spec['stem']}.proto", pkg_of(spec, 0)).dep(*depnames)
     if f2:
         f.dep(f2.name)
     # the shared enum lives in the first target file that holds messages referencing it
@@ -245,11 +279,15 @@ def addr_of(spec, ref, alias=""):
     if ref["kind"] == "dep":
         return {"package": dep_pkg.split("."), "module": "common", "parent": [], "name": full[len(dep_pkg) + 1:], "alias": alias}
     rest = full[len(PKG) + 1:].split(".")
+    tops = {m["name"]: m["file"] for m in spec["messages"]}
+    k = next(i for i, seg in enumerate(rest) if seg in tops)       # segments before the top-level message: the sub-package
+    sub, rest = rest[:k], rest[k:]
     top = rest[0]
-    fidx = next(m["file"] for m in spec["messages"] if m["name"] == top)
+    fidx = tops[top] if spec.get("stem2") else 0
+    assert PKG.split(".") + sub == pkg_of(spec, fidx).split("."), (full, fidx, spec.get("subs"))
     stem = spec["stem2"] if (fidx == 1 and spec.get("stem2")) else spec["stem"]
     stem = spec.get("module_of", {}).get(top, stem)
-    return {"package": PKG.split("."), "module": stem, "parent": rest[:-1], "name": rest[-1], "alias": alias}
+    return {"package": PKG.split(".") + sub, "module": stem, "parent": rest[:-1], "name": rest[-1], "alias": alias}
 
 
 def model_service(spec, aliases):
@@ -258,12 +296,12 @@ def model_service(spec, aliases):
         ms.append({"name": me["name"], "cs": me["cs"], "ss": me["ss"],
                    "input": addr_of(spec, me["input"], aliases.get(me["input"]["full"], "")),
                    "output": addr_of(spec, me["output"], aliases.get(me["output"]["full"], ""))})
-    return {"package": PKG.split("."), "name": spec.get("service", SERVICE), "methods": ms, "has_lro": False, "mixins": []}
+    return {"package": svc_pkg(spec).split("."), "name": spec.get("service", SERVICE), "methods": ms, "has_lro": False, "mixins": []}
 
 
 def model_naming(spec):
     deps = [o.split("=", 1)[1] for o in spec.get("options", "").split(",") if o.startswith("proto-plus-deps=")]
-    return {"proto_package": PKG, "proto_plus_deps": [x for d in deps for x in d.split("+")]}
+    return {"proto_package": root_pkg(spec), "proto_plus_deps": [x for d in deps for x in d.split("+")]}
 
 
 # ------------------------------------------------------------------ helpers
@@ -385,7 +423,7 @@ def plan_calls(ctx, r, spec, codec, svc_obj, per_method):
         attr = gu.to_snake_case(m.client_method_name)      # plumbing: how to reach the method; checked by T2 below
         in_full, out_full = me["input"]["full"], me["output"]["full"]
         # the reply script is installed for every RPC whose client method has the same name (normally: this one)
-        paths = [f"/{PKG}.{spec.get('service', SERVICE)}/{m2['name']}" for m2 in spec["methods"]
+        paths = [f"/{svc_pkg(spec)}.{spec.get('service', SERVICE)}/{m2['name']}" for m2 in spec["methods"]
                  if gu.to_snake_case(svc_obj.methods[m2["name"]].client_method_name) == attr]
         pb2_cls = not m.input.ident.is_proto_plus_type      # plumbing: which constructor the literal is written for
         for rep in range(per_method):
@@ -453,7 +491,7 @@ def plan_multi(r, spec, codec, svc_obj, spec2=None, svc2_obj=None, loc2=None):
             sx, svx = sx or spec, svx or svc_obj
             m = svx.methods[me["name"]]
             in_full, out_full = me["input"]["full"], me["output"]["full"]
-            path = f"/{PKG}.{sx.get('service', SERVICE)}/{me['name']}"
+            path = f"/{svc_pkg(sx)}.{sx.get('service', SERVICE)}/{me['name']}"
             nrep = r.randint(1, 3) if me["ss"] else 1
             void = out_full == "google.protobuf.Empty"
             replies = [({} if void else rpc.rand_msg(r, codec, out_full, p_set=0.9)) for _ in range(nrep)]
@@ -606,7 +644,7 @@ def run_api(ctx, r, spec, label, per_method=1, informational=None, multi_client=
     except BaseException as e:  # noqa
         fail("generation-crash:" + genrun.crash_signature(e), f"API.build raised {type(e).__name__}: {e}")
         return
-    svc = api.services[f"{PKG}.{spec.get('service', SERVICE)}"]
+    svc = api.services[f"{svc_pkg(spec)}.{spec.get('service', SERVICE)}"]
     loc = rpc.py_locations(api, svc)
     codec = rpc.Codec(files)
     import gapic.utils as gu
@@ -659,7 +697,7 @@ def run_api(ctx, r, spec, label, per_method=1, informational=None, multi_client=
     svc2 = loc2 = spec2 = None
     if spec.get("service2") and not informational:
         spec2 = dict(spec, service=spec["service2"]["name"], methods=spec["service2"]["methods"])
-        svc2 = api.services[f"{PKG}.{spec2['service']}"]
+        svc2 = api.services[f"{svc_pkg(spec2)}.{spec2['service']}"]
         loc2 = rpc.py_locations(api, svc2)
         t2(spec2, svc2)
         ctx.count("shape", "two-services")
@@ -753,14 +791,14 @@ def run_api(ctx, r, spec, label, per_method=1, informational=None, multi_client=
                 fam_by_path.setdefault(path, set()).add((attr_family(ser), attr_family(des)))
         # asyncio + void + client-streaming: the released call completes (or not) in the background; its server
         # record may surface in the log slice of a LATER call. Such stray records are not attributed to later calls.
-        stray = {f"/{PKG}.{spec.get('service', SERVICE)}/{m2['name']}" for m2 in spec["methods"]
+        stray = {f"/{svc_pkg(spec)}.{spec.get('service', SERVICE)}/{m2['name']}" for m2 in spec["methods"]
                  if asy and m2["cs"] and m2["output"]["full"] == "google.protobuf.Empty"}
         for p, res_ in zip(plans, sess["calls"]):
             mr = mres[k]; k += 1
             me = spec["methods"][p["mi"]]
             mm = mo["methods"][p["mi"]]
             in_full = me["input"]["full"]
-            want_path = f"/{PKG}.{spec.get('service', SERVICE)}/{me['name']}"
+            want_path = f"/{svc_pkg(spec)}.{spec.get('service', SERVICE)}/{me['name']}"      # package of the file that declares the service
             want_kind = ("stream" if me["cs"] else "unary") + "_" + ("stream" if me["ss"] else "unary")
             extra = {"method": me["name"], "mode": p["mode"], "flavor": fl, "requests": p["requests"], "replies": p["replies"]}
             ctx.case({"method": me["name"], "arity": want_kind, "mode": p["mode"], "flavor": fl, "input": in_full,
@@ -770,13 +808,14 @@ def run_api(ctx, r, spec, label, per_method=1, informational=None, multi_client=
             ctx.count("stream_len", f"req{min(len(p['requests']), 4)}:rep{min(len(p['replies']), 4)}")
             ctx.count("request_type", me["input"]["kind"] + (":nested" if in_full.count(".") > 3 and me["input"]["kind"] == "local" else ""))
             ctx.count("response_type", "void" if me["output"]["full"].endswith(".Empty") and me["output"]["kind"] == "wkt" else me["output"]["kind"])
+            ctx.count("package_layout", "flat" if not spec.get("subs") else "svc-sub" if not spec["subs"][1] else "types-sub" if not spec["subs"][0] else "both-sub")
             ctx.count("name_class", "keyword" if me["name"] in KEYWORD_NAMES else "unsafe" if me["name"] in UNSAFE_NAMES else "plain")
             # ---------------- impl trace, canonical
             if "ok" not in res_:
                 impl = {"error": res_.get("raised")}
                 fail("raised:" + str(res_.get("raised")), f"{fl} {me['name']}({p['mode']}) raised {res_.get('raised')}: {res_.get('msg')}", me, asy, extra=extra)
             else:
-                srv = [rec for rec in res_["server"] if rec["path"] not in stray or rec["path"] == f"/{PKG}.{spec.get('service', SERVICE)}/{me['name']}"]
+                srv = [rec for rec in res_["server"] if rec["path"] not in stray or rec["path"] == want_path]
                 calls = []
                 for rec in srv:
                     sent = [safe_decode(codec, in_full, b) for b in rec["requests"]]
@@ -885,6 +924,8 @@ def _m(name, inp="Req", out="Book", cs=False, ss=False):
             return {"kind": "iam", "full": x}
         if x.startswith(DEP_PKG + ".") or x.startswith("acme.lib.v1beta."):
             return {"kind": "dep", "full": x}
+        if x.startswith(PKG + "."):
+            return {"kind": "local", "full": x}          # full name given (a message of a sub-package)
         return {"kind": "local", "full": f"{PKG}.{x}"}
     return {"name": name, "input": ref(inp), "output": ref(out), "cs": cs, "ss": ss}
 
@@ -918,6 +959,28 @@ def corpus_specs():
     out.append(("two_services_shared_channel", _base_spec(
         [_m("GetBook"), _m("Import"), _m("Watch", "Req", "Book", False, True)],
         service2={"name": "Archive", "methods": [_m("GetBook", "Book", "Req"), _m("Import", "Req", "Book", False, True), _m("GrpcChannel")]}), None))
+    # services declared in a file of a proto SUB-PACKAGE of the API (acme.lib.v1.keepers next to acme.lib.v1): the RPC path
+    # carries the package of the declaring file; request/response types from the sub-package and from the root package
+    K = PKG + ".keepers."
+    out.append(("service_in_sub_package", _base_spec(
+        [_m("GetKeeper", K + "Req", K + "Keeper"), _m("GetBook", "Book", "Book"), _m("FireKeeper", K + "Req", E),
+         _m("WatchKeepers", "Book", K + "Keeper", False, True), _m("Upload", K + "Keeper.Inner", "Book", True, False),
+         _m("Roster", K + "Req", K + "Keeper", True, True), _m("Import", K + "Req", "Book")],
+        stem="keepers", stem2="shared", subs=["keepers", None],
+        messages=[{"name": "Book", "file": 1, "nested": [], "fields": [{"name": "name", "type": "string"}, {"name": "pages", "type": "int32"}]},
+                  {"name": "Req", "file": 0, "nested": [], "fields": [{"name": "name", "type": "string"}, {"name": "shift", "type": "int32", "optional": True},
+                                                                      {"name": "book", "type": "message", "ref": f".{PKG}.Book"}]},
+                  {"name": "Keeper", "file": 0, "nested": [{"name": "Inner", "fields": [{"name": "badge", "type": "int64"}]}],
+                   "fields": [{"name": "name", "type": "string"}, {"name": "badge", "type": "int64"}]}],
+        service2={"name": "Archive", "methods": [_m("GetKeeper", "Book", K + "Req"), _m("Import", K + "Req", "Book", False, True)]}), None))
+    # both target files in (different, one of them nested) sub-packages: no file of the API is in acme.lib.v1 itself
+    D = PKG + ".beta.deep."
+    out.append(("services_in_nested_sub_package", _base_spec(
+        [_m("GetBook", D + "Req", PKG + ".admin.Book"), _m("Purge", PKG + ".admin.Book", E), _m("Watch", D + "Req", D + "Req", False, True),
+         _m("Chat", PKG + ".admin.Book", D + "Req", True, True), _m("Feed", D + "Req", PKG + ".admin.Book", True, False)],
+        stem="lib", stem2="resources", subs=["beta.deep", "admin"],
+        messages=[{"name": "Book", "file": 1, "nested": [], "fields": [{"name": "name", "type": "string"}, {"name": "pages", "type": "int32"}]},
+                  {"name": "Req", "file": 0, "nested": [], "fields": [{"name": "name", "type": "string"}, {"name": "n", "type": "int32", "optional": True}]}]), None))
     # excluded points of `WF` that are NOT findings of this property (recorded as assumptions)
     out.append(("snake_collision", _base_spec([_m("GetBook"), _m("Get_book")]),
                 "RPC names of one service have pairwise distinct snake_case forms (WF.keys / WF.attrs; naming collisions are C12's subject)"))
@@ -984,12 +1047,15 @@ def member_collision_sweep(ctx, r):
 
 def run(ctx):
     ctx.rule = ("APIs of the 'rpc' profile (2..5 random messages over scalar/enum/message/map/oneof/optional/well-known/"
-                "dependency-package fields in one or two target files, 4..8 RPCs covering all four arities, void, request/response "
+                "dependency-package fields in one or two target files — all in one proto package, or the file declaring the services / the other "
+                "file / both in a (possibly nested) sub-package of the API —, 4..8 RPCs covering all four arities, void, request/response "
                 "from the package, nested, well-known and a second (pb2) package, keyword and transport-unsafe names) x random request "
                 "and reply valuations x request given as instance/dict/omitted/iterator x {sync, asyncio}; distinct by (method shape, "
                 "mode, flavour, valuations); non-trivial = every call")
     ctx.assume("LRO, paginated and extended-operation methods are outside this check (C07, C08); no flattened fields (C05), no mixins (C17), no selective generation (C16)")
-    ctx.assume("all target files share one proto package (sub-packages: DESIGN §9-F7); RPC names are ASCII identifiers")
+    ctx.assume("RPC names are ASCII identifiers; every API is generated with autogen-snippets=false (snippet generation for a service of a "
+               "sub-package raises KeyError: finding of C14/C01, not this property's subject); sub-package names differ in their first letter "
+               "(so that the common root of the packages is acme.lib.v1: Naming.build is C11's subject)")
     ctx.assume("a unary-response RPC is answered with exactly one message; replies of a void RPC are empty messages")
     ctx.assume("the dict form of a request is the mapping a caller writes by hand: proto field names -> native python values")
     run_corpus(ctx)
@@ -1038,7 +1104,7 @@ def replay(ctx, payload):
 
 
 CLAIM = dict(
-    text="Lean 4 proof, for every well-formed service, every method, both client flavours, every way of passing the request (instance, dict, omitted, iterator) and every list of replies, that the model of the emitted call path constructs the transport and issues exactly one call to /<package>.<Service>/<Method> with the declared arity carrying the caller's request, and returns None for Empty, the reply stream for server-streaming RPCs and the reply otherwise (call_reaches_rpc); with the supporting theorems (path from wire names, stub kind bijection, the three stub-naming sites agree, attribute lookup reaches the own stub, serializer family = class family, coercion equivalence) and counterexample theorems for every forced hypothesis. Tie: T1 bridge of keyword/transport-unsafe tables and the four to_snake_case regexes; T2 of the real wrappers/metadata/utils functions vs the model; T3 of emitted sync and asyncio clients against a loopback gRPC server vs the model's trace; a model-independent oracle decoding wire bytes under the input descriptors.",
+    text="Lean 4 proof, for every well-formed service, every method, both client flavours, every way of passing the request (instance, dict, omitted, iterator) and every list of replies, that the model of the emitted call path constructs the transport and issues exactly one call to /<package of the file declaring the service>.<Service>/<Method> (also for services of a sub-package of the API: rpc_path_ignores_api_root, rpc_path_sub_package_counterexample, rpc_path_qualified_injective) with the declared arity carrying the caller's request, and returns None for Empty, the reply stream for server-streaming RPCs and the reply otherwise (call_reaches_rpc); with the supporting theorems (path from wire names, stub kind bijection, the three stub-naming sites agree, attribute lookup reaches the own stub, serializer family = class family, coercion equivalence) and counterexample theorems for every forced hypothesis. Tie: T1 bridge of keyword/transport-unsafe tables and the four to_snake_case regexes; T2 of the real wrappers/metadata/utils functions vs the model; T3 of emitted sync and asyncio clients against a loopback gRPC server vs the model's trace; a model-independent oracle decoding wire bytes under the input descriptors.",
     technique="Lean 4 theorems over an executable model of class-body attribute resolution, stub creation and request coercion + translator bridge + differential T2/T3 on generated APIs",
     design="7.3",
     note="Hypotheses of call_reaches_rpc (WF, asyncio void streaming) are each probed on the real code; the ones inside the property's quantifier are listed in findings/C03.json. gRPC itself, interceptors/logging, LRO/paging wrappers, mixins and flattened arguments are not covered.",
